@@ -4553,10 +4553,12 @@ class ParseCtx:
         elif type_obj.data == "enum_type":
             return OutputStorage(OutputStorageType.ENUM, name, default_value=default_value, enum_values=list(x.value for
                 x in type_obj.children))
-        elif type_obj.data == "str_type":
-            return OutputStorage(OutputStorageType.STR, name, default_value=default_value, str_size=self._convert_int(type_obj.children[0].value))
-        elif type_obj.data == "unterm_str_type":
-            return OutputStorage(OutputStorageType.STR, name, default_value=default_value, str_size=self._convert_int(type_obj.children[0].value), str_null=False)
+        elif type_obj.data in ("str_type", "unterm_str_type"):
+            storage = OutputStorage(OutputStorageType.STR, name, default_value=default_value, str_size=self._convert_int(type_obj.children[0].value),
+                                    str_null=type_obj.data == "str_type")
+            if default_value is not None and len(default_value) > storage.effective_string_size():
+                raise IllegalParseTree("Default value is too long for output", decl.children[2])
+            return storage
         elif type_obj.data == "raw_type":
             return OutputStorage(OutputStorageType.RAW, name, raw_underlying=type_obj.children[0].value)
         else:
